@@ -27,7 +27,9 @@ VARIABLES th,          \* per-thread control state
           results      \* per-thread sequence of finished call results
 cvars == <<tree, n, ndel, last, th, results>>
 
-IdleThread == [i |-> 1, st |-> "idle", b |-> 0, res |-> "-", oh |-> 0, lst |-> <<>>, j |-> 0, acc |-> FALSE]
+IdleThread == [i |-> 1, st |-> "idle", b |-> 0, res |-> "-", fr |-> <<>>]
+\* fr = stack of orphan-retry frames [oh: height being retried, lst: orphans taken from the pool,
+\*      j: index of the orphan in progress, acc: some orphan of this height was accepted]
 
 CInit == /\ tree = TreeIn
          /\ n = TrunkNode(Trunk)
@@ -38,11 +40,33 @@ CInit == /\ tree = TreeIn
 Ok(r) == r \in {"ok_head", "ok_fork"}
 HasOp(t) == th[t].i <= Len(Prog[t])
 Op(t) == Prog[t][th[t].i]
+Top(t) == th[t].fr[Len(th[t].fr)]
+CurOrphan(t) == Top(t).lst[Top(t).j]
+SetTop(fr, f) == [fr EXCEPT ![Len(fr)] = f]
+Pop(fr) == SubSeq(fr, 1, Len(fr) - 1)
+NewFrame(h) == [oh |-> h, lst |-> <<>>, j |-> 0, acc |-> FALSE]
 
 Finish(t, r, nd) ==
   /\ n' = nd
   /\ results' = [results EXCEPT ![t] = Append(@, r)]
   /\ th' = [th EXCEPT ![t] = [IdleThread EXCEPT !.i = th[t].i + 1]]
+
+\* the orphan in progress (top frame) has been dealt with; a = it was accepted
+RECURSIVE Advance(_, _, _, _)
+Advance(t, fr, a, nd) ==
+  LET f == fr[Len(fr)]
+      acc2 == f.acc \/ a
+  IN IF f.j < Len(f.lst)
+     THEN /\ n' = nd /\ UNCHANGED results
+          /\ th' = [th EXCEPT ![t].fr = SetTop(fr, [f EXCEPT !.j = @ + 1, !.acc = acc2]), ![t].st = "OH"]
+     ELSE IF acc2
+     THEN /\ n' = nd /\ UNCHANGED results
+          /\ th' = [th EXCEPT ![t].fr = SetTop(fr, [f EXCEPT !.oh = @ + 1, !.acc = FALSE, !.lst = <<>>, !.j = 0]), ![t].st = "O1"]
+     ELSE \* this retry loop is over: return to the caller
+          IF Len(fr) = 1 THEN Finish(t, th[t].res, nd)
+          ELSE Advance(t, Pop(fr), FALSE, nd)      \* nested loop was started by an orphan that returned Orphan
+
+NextOrphan(t, a, nd) == Advance(t, th[t].fr, a, nd)
 
 \* --- sections that hold the chain write locks ---
 SecHH(t) == /\ th[t].st = "idle" /\ HasOp(t) /\ Op(t).k = "ProcessHeader"
@@ -59,18 +83,10 @@ SecH(t) == /\ th[t].st = "idle" /\ HasOp(t) /\ Op(t).k = "ProcessBlock"
 SecB(t) == /\ th[t].st = "B"
            /\ LET r == BodyStage(n, th[t].b) IN
               IF Ok(r.res) THEN /\ n' = r.nd
-                                /\ th' = [th EXCEPT ![t].st = "O1", ![t].res = r.res, ![t].oh = Height(th[t].b) + 1]
+                                /\ th' = [th EXCEPT ![t].st = "O1", ![t].res = r.res,
+                                                     ![t].fr = <<NewFrame(Height(th[t].b) + 1)>>]
                                 /\ UNCHANGED results
               ELSE Finish(t, r.res, r.nd)
-
-NextOrphan(t, a, nd) ==
-  LET acc2 == th[t].acc \/ a IN
-  IF th[t].j < Len(th[t].lst)
-  THEN /\ n' = nd /\ th' = [th EXCEPT ![t].j = @ + 1, ![t].acc = acc2, ![t].st = "OH"] /\ UNCHANGED results
-  ELSE IF acc2 THEN /\ n' = nd /\ th' = [th EXCEPT ![t].oh = @ + 1, ![t].st = "O1", ![t].acc = FALSE] /\ UNCHANGED results
-       ELSE Finish(t, th[t].res, nd)
-
-CurOrphan(t) == th[t].lst[th[t].j]
 
 SecOH(t) == /\ th[t].st = "OH"
             /\ LET r == ProcHeader(n, CurOrphan(t)) IN
@@ -82,29 +98,44 @@ SecOB(t) == /\ th[t].st = "OB"
 
 \* --- steps outside the chain locks (not visible in the lock log) ---
 \* check_orphan reads the head and the parent body (two store reads) and only then adds the block
-\* to the orphan pool: the decision (StepK) and the insertion (StepKA) are separate steps
+\* to the orphan pool: the decision (StepK) and the insertion (StepKA) are separate steps.  After
+\* the insertion the parent is looked up again and, if it has arrived meanwhile, the orphan's
+\* height is retried at once (the call itself still returns Orphan).
 StepK(t) == /\ th[t].st = "K"
             /\ LET pb == PreBody(n, th[t].b) IN
                IF pb.res = "go" THEN /\ n' = n /\ th' = [th EXCEPT ![t].st = "B"] /\ UNCHANGED results
                ELSE IF pb.res = "orphan" THEN /\ n' = n /\ th' = [th EXCEPT ![t].st = "KA"] /\ UNCHANGED results
                ELSE Finish(t, pb.res, n)
 AddOrphan(nd, b) == [nd EXCEPT !.orph = IF \E i \in 1..Len(@) : @[i] = b THEN @ ELSE Append(@, b)]
-StepKA(t) == /\ th[t].st = "KA" /\ Finish(t, "orphan", AddOrphan(n, th[t].b))
+StepKA(t) == /\ th[t].st = "KA"
+             /\ LET nd == AddOrphan(n, th[t].b) IN
+                IF Parent(th[t].b) \in nd.bodies
+                THEN /\ n' = nd /\ UNCHANGED results
+                     /\ th' = [th EXCEPT ![t].st = "O1", ![t].res = "orphan", ![t].fr = <<NewFrame(Height(th[t].b))>>]
+                ELSE Finish(t, "orphan", nd)
 
 StepO1(t) == /\ th[t].st = "O1"
-             /\ LET lst == TakeAt(n.orph, th[t].oh)
-                    nd == [n EXCEPT !.orph = RemoveAt(@, th[t].oh)]
-                IN IF lst = <<>> THEN Finish(t, th[t].res, n)
-                   ELSE /\ n' = nd
-                        /\ th' = [th EXCEPT ![t].lst = lst, ![t].j = 1, ![t].acc = FALSE, ![t].st = "OH"]
-                        /\ UNCHANGED results
+             /\ LET f == Top(t)
+                    lst == TakeAt(n.orph, f.oh)
+                    nd == [n EXCEPT !.orph = RemoveAt(@, f.oh)]
+                IN IF lst = <<>>
+                   THEN (IF Len(th[t].fr) = 1 THEN Finish(t, th[t].res, n)
+                         ELSE Advance(t, Pop(th[t].fr), FALSE, n))
+                   ELSE /\ n' = nd /\ UNCHANGED results
+                        /\ th' = [th EXCEPT ![t].fr = SetTop(@, [f EXCEPT !.lst = lst, !.j = 1, !.acc = FALSE]), ![t].st = "OH"]
 
 StepOK(t) == /\ th[t].st = "OK"
              /\ LET pb == PreBody(n, CurOrphan(t)) IN
                 IF pb.res = "go" THEN /\ n' = n /\ th' = [th EXCEPT ![t].st = "OB"] /\ UNCHANGED results
                 ELSE IF pb.res = "orphan" THEN /\ n' = n /\ th' = [th EXCEPT ![t].st = "OKA"] /\ UNCHANGED results
                 ELSE NextOrphan(t, FALSE, n)
-StepOKA(t) == /\ th[t].st = "OKA" /\ NextOrphan(t, FALSE, AddOrphan(n, CurOrphan(t)))
+StepOKA(t) == /\ th[t].st = "OKA"
+              /\ LET x == CurOrphan(t)
+                     nd == AddOrphan(n, x)
+                 IN IF Parent(x) \in nd.bodies
+                    THEN /\ n' = nd /\ UNCHANGED results           \* nested retry of that height
+                         /\ th' = [th EXCEPT ![t].st = "O1", ![t].fr = Append(@, NewFrame(Height(x)))]
+                    ELSE NextOrphan(t, FALSE, nd)
 
 Section(t) == SecHH(t) \/ SecH(t) \/ SecB(t) \/ SecOH(t) \/ SecOB(t)
 Silent(t) == StepK(t) \/ StepKA(t) \/ StepO1(t) \/ StepOK(t) \/ StepOKA(t)
